@@ -53,8 +53,21 @@ def register(vc):
                "planner that tags its plans with the text; plus 48 concurrent bursts (2-8 simultaneous first lookups of one key, "
                "some hash-only, then the entry used every 0.36 TTL for 3 TTLs: it must stay cached whichever sweepers the burst "
                "started). Non-trivial = three or more events, or a burst.",
+        "C05": "hand-made plans (1-3, sometimes 11-14 root steps; depth 0-2; list fan-outs 0-3, sometimes 8-37; ~12% of steps fail "
+               "with a transport error, ~12% with errors plus partial data) executed by ParallelExecutor.Execute under three "
+               "schedules each (service replies delayed 0-1.5 ms at random, a Logger that yields or sleeps at the executor's log call "
+               "sites Pushing Result / Spawn / Inserting result / Done with probability 0/30/70%); the realised call tree is "
+               "computed by the harness; calls, stitching order (from the collector's own log lines) and errors are recorded. "
+               "Non-trivial = three or more realised calls; distinct = distinct (plan, schedules) JSON.",
+        "C06": "as C05; additionally per run: calls outstanding at return, calls started after return, response re-read 15 ms after "
+               "return, goroutine census before/after; first case = one parent with 40 failing children (the shape that dead-locked "
+               "the pinned tree).",
     })
     vc.ASSUMPTIONS.update({
+        "C05": ["the LTS is the semantics of the regenerated skeleton (hand step, tested by the trace checks of this run)",
+                "Go channels are FIFO; sync.WaitGroup.Wait returns exactly when the counter is zero",
+                "data races are a property of the Go runtime: -race is used in the thorough tier only as supporting evidence"],
+        "C06": ["as C05", "goroutine census and the 15 ms settle delay are supporting observations of the runtime, not part of the proof"],
         "C12": ["planner and sha256 are parameters of the theorems (sha256 hex is never empty); the correspondence uses the real sha256",
                 "real time enters only through: requests of a burst are much closer than the TTL; an idle period is longer than 3 TTLs",
                 "sync.Map Load / LoadOrStore / Store are atomic (the concurrent theorem interleaves exactly these steps); the timer goroutine is modelled as a sweep that may run at any time"],
